@@ -396,7 +396,9 @@ def run_case(script):
     elif k == 'silent':
       if kind == 'mux':
         peer.ping_mode = 'silent' if op[1] else 'answer'
-        ev.append({'e': 'Silence', 'on': 1 if op[1] else 0, 't': ms()})
+        # the silence clause is about an established connection whose peer stops answering
+        if not op[1] or any(c.connected and not c.closed for c in net.conns):
+          ev.append({'e': 'Silence', 'on': 1 if op[1] else 0, 't': ms()})
     elif k == 'stepq':
       loop.step(op[1])
     elif k == 'adv':
@@ -418,7 +420,8 @@ def run_case(script):
     elif k == 'probe':
       st = quiet()
       inflight = [r for r, s_ in reqs.items() if s_['delivered'] == 0]
-      connecting = any(c.waiting == 'connect' for c in net.conns)
+      connecting = any(c.waiting == 'connect' for c in net.conns) or \
+          any(c.stall_until > loop.now() and not c.closed for c in net.conns)   # blocked writes: back-pressure, not a failure
       if st == 2 and not inflight and not state['owner_closed'] and not state['pending_fault'] and not connecting:
         probe_n[0] += 1
         r = probe_n[0]
